@@ -196,11 +196,14 @@ func main() {
 		})
 
 		r.Part("E1b-ReadFrame-every-cut", func(t *explore.T) {
-			for _, n := range []int{0, 1, 5, 125, 126, 300} {
+			for _, n := range []int{0, 1, 5, 125, 126, 300, 65536, 1 << 20, 1<<20 + 1, 1<<21 + 3} {
 				for _, masked := range []bool{false, true} {
 					f := refmodel.Frame{H: refmodel.Hdr{Fin: true, Op: 2, Masked: masked, Mask: [4]byte{1, 2, 3, 4}}, Payload: bytes.Repeat([]byte{7}, n)}
 					data := f.Wire()
 					for cut := 0; cut < len(data); cut++ {
+						if n > 1000 && cut > 20 && cut < len(data)-3 && cut != len(data)/2 && cut != 1<<20 && cut != 1<<20+8 {
+							continue // big frames: every cut in the header, a few in the payload, the last three
+						}
 						for _, kind := range []string{"EOF", "error"} {
 							cut, kind := cut, kind
 							t.Do(func() string { return fmt.Sprintf("ReadFrame len=%d masked=%v cut=%d end=%s", n, masked, cut, kind) }, func() *explore.Fail {
